@@ -20,9 +20,16 @@ import (
 	"verif/harness/internal/drv"
 )
 
-// c19ExtOff: C19_EXT=name[,name] restricts the extension families (debugging aid, like C19_FAMILIES for the
-// supervised ones); the run is then reported as incomplete.
+// c19ExtOff tells an extension family not to run: in a supervised child process, or when C19_EXT=name[,name]
+// restricts the extension families (debugging aid, like C19_FAMILIES for the supervised ones; the run is then
+// reported as incomplete).
 func c19ExtOff(c *core.Ctx, name string) bool {
+	if os.Getenv("C19_CHILD") != "" {
+		// core.Extend chains the families behind c19Run, which is also what a supervised child process executes: the
+		// extension families belong to the worker itself. (Run inside the children they were repeated once per family
+		// and restart, and their CPU time was taken for a stall of the child's last case.)
+		return true
+	}
 	only := os.Getenv("C19_EXT")
 	if only == "" || strings.Contains(","+only+",", ","+name+",") {
 		return false
